@@ -144,19 +144,19 @@ Fixpoint bools_eqb (a b : list bool) : bool :=
 
 (* choices left to the scheduler / to the task being run *)
 Inductive pchoice :=
-  | CNone
-  | CPop (k : nat)                  (* WSearch: pop a bucket of k tasks *)
-  | CSteal (v k : nat)              (* WSearch: steal k tasks from worker v *)
-  | CGiveUp                         (* WSearch: back to the barrier *)
-  | CCnt (d : Z)                    (* WTask: sends minus receives performed by the task *)
-  | CWake                           (* WTask: a task is woken: schedule_task *)
-  | CDone                           (* WTask: the poll returns *)
-  | CPushLocal                      (* WSched1: local_queue.push *)
-  | CDrain (k : nat)                (* WSched1: local_queue.drain (k tasks to the hand) *)
-  | CPushInj (k : nat)              (* WSched1: injector.push_bucket / insert_task *)
-  | CNext                           (* WSched1 -> WSched2 (nothing left in hand) *)
-  | CActivate (v : nat)             (* WSched2: activate_worker_relaxed picks v *)
-  | CSkip.                          (* WSched2: no activation *)
+  | PNone
+  | PPop (k : nat)                  (* WSearch: pop a bucket of k tasks *)
+  | PSteal (v k : nat)              (* WSearch: steal k tasks from worker v *)
+  | PGiveUp                         (* WSearch: back to the barrier *)
+  | PCnt (d : Z)                    (* WTask: sends minus receives performed by the task *)
+  | PWake                           (* WTask: a task is woken: schedule_task *)
+  | PDone                           (* WTask: the poll returns *)
+  | PPushLocal                      (* WSched1: local_queue.push *)
+  | PDrain (k : nat)                (* WSched1: local_queue.drain (k tasks to the hand) *)
+  | PPushInj (k : nat)              (* WSched1: injector.push_bucket / insert_task *)
+  | PNext                           (* WSched1 -> WSched2 (nothing left in hand) *)
+  | PActivate (v : nat)             (* WSched2: activate_worker_relaxed picks v *)
+  | PSkip.                          (* WSched2: no activation *)
 
 Inductive plabel :=
   | LW (j : nat) (c : pchoice)      (* worker j performs its next access *)
@@ -190,10 +190,10 @@ Definition worker_step (B : barrier) (s : pstate) (j : nat) (w : pworker) (c : p
   | WPost [] => Some (set_w s j (set_pc w WSearch))
   | WSearch =>
       match c with
-      | CPop k => if (1 <=? k) && (k <=? pinj s)
+      | PPop k => if (1 <=? k) && (k <=? pinj s)
                   then Some (set_inj (set_w s j (set_pc (set_hand w (whand w + k)) WExt)) (pinj s - k))
                   else None
-      | CSteal v k =>
+      | PSteal v k =>
           if Nat.eqb v j then None else
           match nth_error (pws s) v with
           | Some x => if (1 <=? k) && (k <=? wlq x)
@@ -202,7 +202,7 @@ Definition worker_step (B : barrier) (s : pstate) (j : nat) (w : pworker) (c : p
                       else None
           | None => None
           end
-      | CGiveUp => Some (set_w s j (set_pc w (WPre (b_pre B))))
+      | PGiveUp => Some (set_w s j (set_pc w (WPre (b_pre B))))
       | _ => None
       end
   | WExt => Some (set_w s j (set_pc (set_hand (set_lq w (wlq w + whand w)) 0) WRun))
@@ -214,28 +214,28 @@ Definition worker_step (B : barrier) (s : pstate) (j : nat) (w : pworker) (c : p
            end
   | WTask =>
       match c with
-      | CCnt d => Some (set_net (set_w s j (set_cnt w (wcnt w + d))) (pnet s + d))
-      | CWake => if wslot w then Some (set_w s j (set_pc (set_hand w (S (whand w))) WSched1))
+      | PCnt d => Some (set_net (set_w s j (set_cnt w (wcnt w + d))) (pnet s + d))
+      | PWake => if wslot w then Some (set_w s j (set_pc (set_hand w (S (whand w))) WSched1))
                  else Some (set_w s j (set_slot w true))
-      | CDone => Some (set_w s j (set_pc w WRun))
+      | PDone => Some (set_w s j (set_pc w WRun))
       | _ => None
       end
   | WSched1 =>
       match c with
-      | CPushLocal => match whand w with
+      | PPushLocal => match whand w with
                       | S h => Some (set_w s j (set_hand (set_lq w (S (wlq w))) h))
                       | O => None
                       end
-      | CDrain k => if k <=? wlq w then Some (set_w s j (set_hand (set_lq w (wlq w - k)) (whand w + k))) else None
-      | CPushInj k => if (1 <=? k) && (k <=? whand w)
+      | PDrain k => if k <=? wlq w then Some (set_w s j (set_hand (set_lq w (wlq w - k)) (whand w + k))) else None
+      | PPushInj k => if (1 <=? k) && (k <=? whand w)
                       then Some (set_inj (set_w s j (set_hand w (whand w - k))) (pinj s + k)) else None
-      | CNext => match whand w with O => Some (set_w s j (set_pc w WSched2)) | S _ => None end
+      | PNext => match whand w with O => Some (set_w s j (set_pc w WSched2)) | S _ => None end
       | _ => None
       end
   | WSched2 =>
       match c with
-      | CActivate v => if v <? length (pws s) then Some (set_w s j (set_pc w (WAct v))) else None
-      | CSkip => Some (set_w s j (set_pc w WTask))
+      | PActivate v => if v <? length (pws s) then Some (set_w s j (set_pc w (WAct v))) else None
+      | PSkip => Some (set_w s j (set_pc w WTask))
       | _ => None
       end
   | WAct v =>
@@ -305,3 +305,14 @@ Definition in_barrier (pc : ppc) : bool :=
 Definition no_work (w : pworker) : Prop :=
   wlq w = 0 /\ wslot w = false /\ whand w = 0 /\ in_barrier (wpc w) = true.
 Definition quiescent (s : pstate) : Prop := pinj s = 0 /\ forall j, no_work (W s j).
+
+(* executable versions, for the search for a failing schedule (ocaml/driver.ml: poolsearch) *)
+Definition p_quiescentb (s : pstate) : bool :=
+  Nat.eqb (pinj s) 0 &&
+  forallb (fun w => Nat.eqb (wlq w) 0 && negb (wslot w) && Nat.eqb (whand w) 0 && in_barrier (wpc w)) (pws s).
+Definition p_bad (s : pstate) : bool :=
+  (0 <? ppanic s) || existsb (fun mk => negb (Z.eqb (fst mk) (snd mk))) (preads s) ||
+  match pmain s with
+  | MRead => negb (Z.eqb (pmsg s) (pnet s)) || negb (p_quiescentb s)
+  | _ => false
+  end.
